@@ -33,14 +33,14 @@ def child_main(root: str, li: int) -> int:
     return 0
 
 
-def run_real(plan: dict, root: str):
+def run_real(plan: dict, root: str, x64_first: bool = True):
     from .seams import HarnessError
     from .world import dump_state, load_state, post_crash
 
     os.makedirs(root, exist_ok=True)
     json.dump(plan, open(os.path.join(root, "plan.json"), "w"))
     sp = os.path.join(root, "state.pkl")
-    env = boot.child_env(int(plan.get("devices", 1)))
+    env = boot.child_env(int(plan.get("devices", 1)), x64_first=x64_first)
     kills = 0
     for li, lt in enumerate(plan["lifetimes"]):
         p = subprocess.run([sys.executable, "-m", "mdpsim.lifetime", root, str(li)], env=env, cwd=boot.VERIF_DIR, capture_output=True, text=True, timeout=600)
